@@ -404,6 +404,7 @@ func main() {
 }
 
 func checkC19(e *core.Env) {
+	curEnv = e
 	e.SetRule("the plugin binary is built from /repo and fed synthetic CodeGeneratorRequests: files with 1..4 services, 0..12 methods in random interleavings of the four kinds, snake/camel/lower-camel names, nested packages, imported request/response types, multi-file requests, options {legacy_stubs, legacy_desc_names, paths=import|source_relative, module=, import_path=, M mappings, invalid options}. Output must parse as Go; for the executable option sets it is compiled together with companion declarations derived from the same descriptors and EXECUTED against a recording channel/registrar: every client method must call the channel with /<full service>/<method>, the right call shape and the stream descriptor of that very method (index in declaration order); each registration function must register its own description; regenerating test.proto with legacy_stubs must reproduce the checked-in file byte for byte; distinct = distinct (option set, service shape)")
 	e.Assume("companion declarations follow protoc-gen-go-grpc naming for identifiers over [A-Za-z0-9_]; they are self-validated by compiling the stubs regenerated for the repository's own test.proto naming scheme")
 	tmp, err := os.MkdirTemp("", "c19-")
@@ -484,7 +485,7 @@ func checkC19(e *core.Env) {
 		{"Mfoo.proto", false, false, "", true},
 	}
 
-	nBatches := e.N(1, 8)
+	nBatches := e.N(3, 24)
 	for batch := 0; batch < nBatches; batch++ {
 		if !e.Selected("batch", batch) {
 			continue
